@@ -99,7 +99,7 @@ def run(rep, tier, seed, rng):
     with ThreadPoolExecutor(core.NCPU) as ex:
         res = list(ex.map(lambda h: hist.execute(laze, h), hs))
     reqs = [hist.request(h, laze, r[0]) for h, r in zip(hs, res)]
-    reps, _ = core.run_model_ev(laze, driver, reqs)
+    reps, tables = core.run_model_ev(laze, driver, reqs)
     kinds = Counter(); ndis = 0; nprop = 0; nontriv = set(); lens = Counter(); rejected = 0; hits_checked = 0
     open_known = {k["key"] for k in core.load_known() if k.get("property") == "C08" and k.get("status") == "open"}
     for nm, h, (root, steps, fresh), rp in zip(names, hs, res, reps):
@@ -130,7 +130,7 @@ def run(rep, tier, seed, rng):
         if any(x["kind"] == "H" for x in m) and any(x["kind"] in ("F", "K", "E") for x in m):
             nontriv.add(json.dumps(desc, sort_keys=True, default=str))
     # cross-check extraction on a few histories inside Coq
-    small = sorted(range(len(reqs)), key=lambda i: len(reqs[i]))[:6]
+    small = sorted([i for i in range(len(reqs)) if not tables[i]], key=lambda i: len(reqs[i]))[:6]      # (requests that needed no evalexpr answers)
     nvm, bad = core.vm_crosscheck([reqs[i] for i in small], [reps[i] for i in small], n=6)
     for b in bad: rep.violation("extracted model and vm_compute disagree on a history request", dict(detail=str(b)[:400]), found_input=False)
     # open known findings: do the witnesses still reproduce?
@@ -156,5 +156,5 @@ def run(rep, tier, seed, rng):
         "a kill is SIGABRT at one of seven fault points (hooks); kills inside a single write call are covered by: a truncated bincode cache does not deserialize (not modelled), a partly written ninja file is state NPartial",
         "the 64-bit hash of the -D environment is modelled as equality of the environments",
         "C08_hit_is_fresh: premises same build-dir/root/binary spelling, same -D list, no --partition, --apps narrowing in global mode only; the remaining cases are covered by the correspondence and the implementation-level property check only",
-        "local mode and a changed laze binary (build uuid) are in the model and theorems but not exercised by the harness",
+        "a changed laze binary (build uuid) is in the model and theorems but not exercised by the harness; local-mode runs are (own ninja file and cache)",
     ]
